@@ -11,6 +11,7 @@ package v0
 // behaviour of the package when the tag is off.
 
 import (
+	"fmt"
 	"sort"
 	"sync/atomic"
 	"time"
@@ -235,6 +236,13 @@ func VerifDrain(bcR *BlockchainReactor) (reqs []BlockRequest, errs []VerifPeerEr
 // written) request/error channels: poolRoutine's helper goroutine cannot be joined, and must not
 // take values from the pool's channels after this function has returned (the caller drains those).
 func VerifRunPoolRoutine(bcR *BlockchainReactor, state sm.State, until func() bool, maxWait time.Duration) (timedOut bool) {
+	timedOut, _ = VerifRunPoolRoutineP(bcR, state, until, maxWait)
+	return timedOut
+}
+
+// VerifRunPoolRoutineP is VerifRunPoolRoutine that also reports a panic of poolRoutine (which in a
+// node takes the process down) instead of crashing the caller.
+func VerifRunPoolRoutineP(bcR *BlockchainReactor, state sm.State, until func() bool, maxWait time.Duration) (timedOut bool, panicked string) {
 	shell := &BlockchainReactor{
 		initialState: state,
 		blockExec:    bcR.blockExec,
@@ -253,10 +261,21 @@ func VerifRunPoolRoutine(bcR *BlockchainReactor, state sm.State, until func() bo
 	done := make(chan struct{})
 	go func() {
 		defer close(done)
+		defer func() {
+			if r := recover(); r != nil {
+				panicked = fmt.Sprint(r)
+			}
+		}()
 		shell.poolRoutine(false)
 	}()
 	deadline := time.Now().Add(maxWait)
 	for !until() {
+		select {
+		case <-done:
+			_ = shell.Stop()
+			return false, panicked
+		default:
+		}
 		if time.Now().After(deadline) {
 			timedOut = true
 			break
@@ -265,5 +284,5 @@ func VerifRunPoolRoutine(bcR *BlockchainReactor, state sm.State, until func() bo
 	}
 	_ = shell.Stop()
 	<-done
-	return timedOut
+	return timedOut, panicked
 }
